@@ -119,6 +119,12 @@ class FieldCodeGenerator:
 
         field_type = self._get_type()
 
+        if isinstance(field_type, IntegerType) and not self._hardcoded_value.isdigit():
+            raise RuntimeError(f'"{self._hardcoded_value}" is not a valid integer value.')
+
+        if isinstance(field_type, BoolType) and self._hardcoded_value not in ("true", "false"):
+            raise RuntimeError(f'"{self._hardcoded_value}" is not a valid bool value.')
+
         if isinstance(field_type, StringType):
             length = try_parse_int(self._length_string)
             if length is not None and length != len(self._hardcoded_value):
